@@ -19,7 +19,7 @@ func init() { Registry["C12"] = C12 }
 func C12(p *ir.Program, r *report.R) {
 	c := C{p, r}
 	r.Floor = 45
-	r.Explain = "Decided: (a) Header.Hash covers every exported Header field under its own name (exemption: Recover, see DESIGN) ; (b) block ids are compared whole (BlockID.Equals/PartSetHeader.Equals/BlockID.Key field coverage) ; (c) Block.ValidateBasic ties LastCommitHash/DataHash/EvidenceHash/NumTxs to the content and every mismatch returns an error; the list hashes cover every element in order (split coverage); (d) PartSet.AddPart admits a part only under 0 <= index < total, empty slot and a Merkle proof of part.Hash() at that index under the set's hash; SimpleProof.Verify / computeHashFromAunts reject out-of-range indices and compare with the root; Part.Hash hashes part.Bytes; (e) the proposal block is decoded only from a complete part set, read in index order; ProposalBlockParts is only created from a signature-checked proposal header or a +2/3 block id; fast sync builds the block id from block hash AND part-set header. NOT decided: collision resistance of Keccak/merkle, equality of reassembled bytes as a value property."
+	r.Explain = "Decided: (a) Header.Hash covers every exported Header field under its own name (exemption: Recover, see DESIGN) ; (b) block ids are compared whole (BlockID.Equals/PartSetHeader.Equals/BlockID.Key field coverage) ; (c) Block.ValidateBasic ties LastCommitHash/DataHash/EvidenceHash/NumTxs to the content and every mismatch returns an error; the list hashes cover every element in order (split coverage); (d) PartSet.AddPart admits a part only under 0 <= index < total, empty slot and a Merkle proof of part.Hash() at that index under the set's hash; SimpleProof.Verify / computeHashFromAunts reject out-of-range indices and compare with the root; Part.Hash hashes part.Bytes; (e) the proposal block is decoded only from a complete part set, read in index order; ProposalBlockParts is only created from a signature-checked proposal header or a +2/3 block id; fast sync builds the block id from block hash AND part-set header. ADDED after seeded-change testing: every calc*Key builder of the block store is an injective piece sequence (decimal fields separated by a constant non-digit, fixed-width fields free) and no family prefix is a prefix of another, so a stored part is found only under its own (height,index) NOT decided: collision resistance of Keccak/merkle, equality of reassembled bytes as a value property."
 	r.Trusted = []string{"crypto.Keccak256, merkle.SimpleHashFromTwoHashes (hash functions)", "libs/ser encoding (C11)"}
 
 	// (a) header hash coverage
@@ -343,6 +343,61 @@ func C12(p *ir.Program, r *report.R) {
 		})
 		c.MustFind("K4", "blockchain.(*BlockchainReactor).poolRoutine/VerifyCommit", fn, n, "VerifyCommit call")
 	}
+
+	// (f) stored parts: a block is served and reloaded from parts stored under (height, index); the key
+	// must determine both, and the key families of the store must not overlap
+	storeKeyRules(c, "blockchain", 7)
+}
+
+// storeKeyRules: every `calc*Key` builder of the package maps its arguments injectively to a key
+// (see keys.go) and no builder's constant prefix is a prefix of another's.
+func storeKeyRules(c C, rel string, want int) {
+	p, r := c.P, c.R
+	type kb struct {
+		fn     *ssa.Function
+		prefix string
+	}
+	var builders []kb
+	for _, f := range p.Funcs {
+		if f.Pkg == nil || ir.RelPkg(f.Pkg.Pkg) != rel || f.Parent() != nil || f.Signature.Recv() != nil || strings.HasSuffix(p.Pos(f.Pos()), "_test.go") {
+			continue
+		}
+		if !(strings.HasPrefix(f.Name(), "calc") || strings.HasPrefix(f.Name(), "cal")) || !strings.HasSuffix(f.Name(), "Key") {
+			continue
+		}
+		res := f.Signature.Results()
+		if res.Len() != 1 || res.At(0).Type().String() != "[]byte" {
+			continue
+		}
+		rets := ir.Returns(f)
+		for i, rt := range rets {
+			ps := keyPieces(p, rt.Results[0], 0)
+			ok, decided, why := keyInjective(ps)
+			key := "store-key/" + ir.FuncName(f) + "/injective"
+			if i > 0 {
+				key += fmt.Sprintf("/return%d", i)
+			}
+			if !decided {
+				r.Undecided("K11", key, p.InstrPos(rt.Instr), "key construction not recognised: "+why+" in "+keyString(ps))
+				continue
+			}
+			r.Check("K11", key, p.InstrPos(rt.Instr), ok, "arguments determine the key: "+keyString(ps)+" "+why)
+			if i == 0 {
+				builders = append(builders, kb{f, keyPrefix(ps)})
+			}
+		}
+	}
+	sort.Slice(builders, func(i, j int) bool { return ir.FuncName(builders[i].fn) < ir.FuncName(builders[j].fn) })
+	for i, a := range builders {
+		clash := ""
+		for j, b := range builders {
+			if i != j && (a.prefix == "" || strings.HasPrefix(b.prefix, a.prefix)) {
+				clash = ir.FuncName(b.fn) + " " + b.prefix
+			}
+		}
+		r.Check("K11", "store-key/"+ir.FuncName(a.fn)+"/own-prefix", p.Pos(a.fn.Pos()), clash == "", fmt.Sprintf("constant prefix %q is not a prefix of another key family %s", a.prefix, clash))
+	}
+	r.Check("K11", "store-key/"+rel+"/builders", "-", len(builders) >= want, fmt.Sprintf("%d key builders analysed (confirmed by hand: %d)", len(builders), want))
 }
 
 func normBoolRet(row ir.Row) string {
